@@ -2,8 +2,17 @@
 """prompt for a sub-agent that produces BEHAVIOUR-PRESERVING refactorings (to measure how often the checks alarm on code where the property holds)"""
 import json, sys
 pid = sys.argv[1]
-wd = pid + "h"
+rnd = sys.argv[2] if len(sys.argv) > 2 else "1"
+wd = pid + "h" + (rnd if rnd != "1" else "")
 extra = (" At least TWO of the four must restructure GLUE code rather than a formula: how one function of the library calls another (passing an argument by keyword instead of by position or the reverse, naming an intermediate value before passing it on, building the keyword arguments in a dict first, extracting two adjacent calls into a private helper or inlining a small helper, reordering independent calls), how option dictionaries are copied and defaulted, or how object attributes are assigned (order of the assignments, a local variable assigned to the attribute afterwards)." if len(sys.argv) > 2 else "")
+if rnd == "3":
+    extra = (" At least THREE of the four must restructure code AROUND the formulas, in the following styles (one each): (a) hoist literal values that are repeated or buried in a function "
+             "(default option values, default threshold dictionaries, column-name lists, the valid values of a string option) into a MODULE-LEVEL constant - a tuple, a frozenset, a dict used as a lookup table - "
+             "and use it from the function, taking care (as a careful maintainer would) that no caller can ever modify the shared object: copy it (dict(...), copy.deepcopy, {**X}) before handing it out, or only read it; "
+             "(b) tidy the OBJECT layer in bycycle/objs/fit.py (Bycycle, BycycleGroup, BycycleBase) where the property involves it, or else the group layer bycycle/group/: extract a private method or helper, build the "
+             "arguments of a call in a dict first and spread it (or the reverse), pass the call's own arguments instead of the attributes just stored from them (or the reverse), replace the duplicated 2-D / 3-D branches "
+             "by a small helper applied to every model, iterate with enumerate / zip instead of indices; (c) change the IMPORT style of a helper used by the anchored code: import it under an alias, or import its module and call "
+             "module.function, or move a private helper to another bycycle module and import it from there.")
 p = next(json.loads(l) for l in open('/verif/properties.jsonl') if json.loads(l)['id'] == pid)
 print(f"""You are helping to evaluate a verification effort. You work ONLY inside the scratch git worktree /tmp/seed/{wd} (a checkout of the Python library `bycycle`, which segments neural time series into cycles, computes per-cycle features and detects oscillatory bursts). Do not read or write anything under /verif or /repo. There is no network. Python with all dependencies is /venv/bin/python; always run things as `cd /tmp/seed/{wd} && PYTHONPATH=/tmp/seed/{wd} /venv/bin/python ...`.
 
